@@ -207,7 +207,7 @@ fn ilog(v: &BigUint, b: &BigUint) -> usize {
 
 /// Every power of a fixed set of bases that fits the width, with its two neighbours. `stride`
 /// thins the exponents of the bases 2 and 3 (which have thousands of powers at wide widths).
-fn enum_powers(bits: usize, stride: usize, f: &mut dyn FnMut(&Case) -> R) -> R {
+fn enum_powers(bits: usize, stride: usize, part: usize, nparts: usize, f: &mut dyn FnMut(&Case) -> R) -> R {
     let n = nlimbs(bits);
     let two = pow2(bits);
     let mut bases: Vec<BigUint> = [2u64, 3, 5, 7, 10, 16, 100, 255, 256, 257, 65536, u32::MAX as u64, 1 << 32, (1 << 32) + 1, u64::MAX].iter().map(|x| BigUint::from(*x)).collect();
@@ -217,12 +217,13 @@ fn enum_powers(bits: usize, stride: usize, f: &mut dyn FnMut(&Case) -> R) -> R {
         if b >= two {
             continue;
         }
-        let thin = if b <= BigUint::from(3u32) { stride } else { 1 };
+        // beyond 8192 bits every base is thinned (the last power that fits is always kept)
+        let thin = if b <= BigUint::from(3u32) { stride } else if bits > 8192 { (stride / 2).max(1) } else { 1 };
         let bl = limbs_of(&b, n);
         let mut p = BigUint::one();
         let mut k = 0usize;
         while p < two {
-            if k % thin == 0 || &p * &b >= two {
+            if (k % thin == 0 || &p * &b >= two) && (k / thin) % nparts == part {
                 for d in 0..3u8 {
                     let v = match d {
                         0 => p.clone(),
@@ -239,11 +240,21 @@ fn enum_powers(bits: usize, stride: usize, f: &mut dyn FnMut(&Case) -> R) -> R {
     Ok(())
 }
 
+/// the same list at a giant width, split into 8 jobs
+macro_rules! reg_powers_giant {
+    ($jobs:expr, $stride:expr; [$($b:literal),* $(,)?]) => {
+        $( for part in 0..8usize {
+            let stride: usize = $stride;
+            $jobs.fixed_list("log_all_powers", $b, move |f| enum_powers($b, stride, part, 8, f), body_log::<$b, { ruint::nlimbs($b) }>);
+        } )*
+    };
+}
+
 macro_rules! reg_powers {
     ($jobs:expr, $stride:expr; [$($b:literal),* $(,)?]) => {
         $( {
             let stride: usize = $stride;
-            $jobs.fixed_list("log_all_powers", $b, move |f| enum_powers($b, stride, f), body_log::<$b, { ruint::nlimbs($b) }>);
+            $jobs.fixed_list("log_all_powers", $b, move |f| enum_powers($b, stride, 0, 1, f), body_log::<$b, { ruint::nlimbs($b) }>);
         } )*
     };
 }
@@ -417,6 +428,9 @@ fn main() {
             reg_gen!(jobs, "root", 60, strat_root, body_root; [4160]);
             // every power of 17 fixed bases (and its neighbours) at a spread of widths, including
             // two far above the float-estimate range of the logarithm
+            // widths beyond the float estimate's exact range (the quotient of two f64 logarithms is
+            // within 1e-12 of the truth only below results of about 8192)
+            reg_powers_giant!(jobs, 48; [16448, 65600]);
             reg_powers!(jobs, 1; [7, 8, 16, 32, 63, 64, 65, 100, 127, 128, 129, 192, 255, 256, 257, 320, 512, 535, 1024, 2048, 4096]);
         },
         |_| Map::new(),
